@@ -166,6 +166,20 @@ theorem loop_step (b : Bytes) (fuel : Nat) (s : GoSem.St) (fu : UInt8) (k : Nat)
       · have bm : decide (0 < runeU8 x &&& 32) = false := decide_eq_false (fun h => cm (hm.mp h))
         simp [loopBody, goparseNumber, c0, c8, hb, hf, e1, tbl_rune, b0, b8, bm, cm]
 
+theorem execRangeI_nil (funs : String → Option FunDef) (fuel : Nat) (iv v : String) (k : Nat) (body : List Stmt) (s : GoSem.St) :
+    execRangeI funs fuel iv v k [] body s = .normal s := by rw [execRangeI]
+
+theorem execRangeI_cons (funs : String → Option FunDef) (fuel : Nat) (iv v : String) (k : Nat) (x : UInt8) (xs : List UInt8)
+    (body : List Stmt) (s : GoSem.St) :
+    execRangeI funs fuel iv v k (x :: xs) body s =
+      match exec funs fuel body { s with env := (s.env.set iv (.int k)).set v (.u8 x) } with
+      | .normal s' | .cont s' => execRangeI funs fuel iv v (k + 1) xs body s'
+      | .brk s' => .normal s'
+      | o => o := by
+  rw [execRangeI]
+  generalize exec funs fuel body _ = out
+  cases out <;> rfl
+
 /-- the `range` loop is the model's scan (`NumberProofs.scan`, to which `numScan` is equal): an abort is `return 0, 0`,
     otherwise the loop ends normally with `pos`, `found` as the model computes them; `pos ≤ len(buf)` -/
 theorem scan_loop (b : Bytes) (tape : Array UInt64) (fuel : Nat) :
@@ -181,14 +195,16 @@ theorem scan_loop (b : Bytes) (tape : Array UInt64) (fuel : Nat) :
   induction xs with
   | nil =>
     intro k s fu hd hk ht hb hf hp
-    rw [NumberProofs.scan, execRangeI]
+    rw [NumberProofs.scan, execRangeI_nil]
     exact ⟨s, fu, rfl, ht, hb, hf, rfl, hp, hk⟩
   | cons x xs ih =>
     intro k s fu hd hk ht hb hf hp
-    obtain ⟨hlen, hdr, hhd⟩ := drop_facts b k x xs hd
+    have hlen := (drop_facts b k x xs hd).1
+    have hdr := (drop_facts b k x xs hd).2.1
     have hstep := loop_step b fuel s fu k x xs hd hb hf
     simp only [] at hstep
-    rw [NumberProofs.scan, execRangeI, hstep]
+    rw [NumberProofs.scan, execRangeI_cons, hstep]
+    trace_state
     by_cases c0 : numRune x = 0
     · simp only [c0, if_true]
       exact ⟨_, rfl, ht⟩
